@@ -562,7 +562,12 @@ def call_type(I, t, args, kwargs):
             else:
                 for pair in I.iterate_concrete(src):
                     kv = I.iterate_concrete(pair)
-                    d.set(kv[0], kv[1])
+                    # symbolic keys may coincide: decided (by a fork) like any other item assignment
+                    if isinstance(kv[0], SV) or any(isinstance(x_, SV) for x_ in d.keys):
+                        stamp(d)
+                        I.setitem(d, kv[0], kv[1])
+                    else:
+                        d.set(kv[0], kv[1])
         for k_, v_ in kwargs.items():
             d.set(k_, v_)
         return d
